@@ -236,6 +236,7 @@ PROPS = {
         "assumptions": [
             "the production rotation period is read from the production build of /repo (tags: verif only) and handed to the main-build job",
             "the rotation trigger and acceptance half-width are measured on the test build; the code that implements them is not build-tagged",
+            "window offsets beyond 4294963008 are outside the check: their two-week window does not fit into 32-bit timeslots, so 'the mathematically correct answer' is not defined for them; if the server refuses to start from the constructed archive file the top-window half is skipped (labelled), never an alarm",
         ],
     },
     "C18": {
@@ -318,7 +319,7 @@ META = {
     },
     "C07": {
         "technique": "stateful property-based testing with concurrent registration batches, schedule-independent oracle; thorough tier partly under the race detector",
-        "text": "Generated histories start unregistered and mix registration attempts of every kind, concurrent batches of valid registrations for different candidates with simultaneous authority probes, restarts, and authority probes on the three GCA-gated endpoints signed by every key around. Exactly one registration may ever succeed and only the winner's signatures may be honoured. Exploration only.",
+        "text": "Generated histories start unregistered and mix registration attempts of every kind, concurrent batches of valid registrations for different candidates with simultaneous authority probes, restarts, and authority probes on the three GCA-gated endpoints signed by every key around. Exactly one registration may ever succeed and only the winner's signatures may be honoured. A second generated check registers arbitrary 32 bytes (random, repeated byte, genuine key with one bit flipped) as the GCA key and requires that an accepted registration stays the only one across restarts, whether or not the bytes are a usable public key. Exploration only.",
         "note": "The interleavings of a batch are whatever the Go scheduler produces; the oracle does not depend on who wins.",
     },
     "C03": {
@@ -343,7 +344,7 @@ META = {
     },
     "C20": {
         "technique": "exhaustive boundary enumeration plus property-based testing against an int64 reference, in both the production and the test build",
-        "text": "Conversions are checked at every 5-minute boundary up to the 32-bit no-overflow bound (exhaustive, both builds) and at random times; production genesis and clock are checked in a build without the test tag; acceptance at uint32-extreme (now, slot) pairs is compared with the int64 predicate on a live server; the rotation trigger and acceptance half-width are measured on the live server and combined with the production rotation period in T+P+1+W<4032.",
+        "text": "Conversions are checked at every 5-minute boundary up to the 32-bit no-overflow bound (exhaustive, both builds) and at random times; production genesis and clock are checked in a build without the test tag; acceptance at uint32-extreme (now, slot) pairs is compared with the int64 predicate on two live servers, one with the window at offset 0 and one with the last window that fits into 32 bits (offset 4294963008, restored from a constructed archive file); the rotation trigger and acceptance half-width are measured on the live server and combined with the production rotation period in T+P+1+W<4032.",
         "note": "The window-safety inequality uses the measured trigger and half-width of the test build (same source lines in both builds) and the production period constant; clock values above the uint32 range are out of scope.",
     },
     "C18": {
